@@ -474,4 +474,76 @@ theorem positionToIndex_lastline (len16 : Char → Nat) (pre line last : List Ch
     Option.some_or, Option.getD_some, nlIdx_last_of_lineStart pre hp, slice_mid]
   rfl
 
+/-! ### w26: the quick-fix edits of a whole code-action request
+
+`generate_code_actions` (`document_state.rs`) = `range_to_span(..).with_len(1)` once, the `overlaps_with` filter, then
+`flat_map(lint_to_code_actions)`; `lint_to_code_actions` (`diagnostics.rs`) builds one `TextEdit` per suggestion
+(`Model.editOf`, in the order of `lint.suggestions`). The two definitions below only COMPOSE the model's `rangeToSpan`,
+`Span.overlapsWith`, `Span.withLen` and `editOf` in that order (no driver op of its own: `selects` and `editOf` are the
+driven pieces); the commands appended after the edits (`HarperIgnoreLint`, dictionary commands, `Open URL`) carry no range
+and are left out. -/
+
+/-- the `TextEdit`s of `lint_to_code_actions` for one lint (`span`, `suggestions`), in order; a panic of any
+`span_to_range` / `get_content_string` is a panic of the whole call -/
+def lintEdits (len16 : Char → Nat) (src : List Char) (sp : Span) : List Sugg → Except Panic (List TextEdit)
+  | [] => .ok []
+  | s :: ss =>
+    match editOf len16 src s sp with
+    | .error e => .error e
+    | .ok e =>
+      match lintEdits len16 src sp ss with
+      | .error e => .error e
+      | .ok es => .ok (e :: es)
+
+/-- `.flat_map(|lint| lint_to_code_actions(..))` over the lints that passed the filter -/
+def flatEdits (len16 : Char → Nat) (src : List Char) : List (Span × List Sugg) → Except Panic (List TextEdit)
+  | [] => .ok []
+  | l :: ls =>
+    match lintEdits len16 src l.1 l.2 with
+    | .error e => .error e
+    | .ok es =>
+      match flatEdits len16 src ls with
+      | .error e => .error e
+      | .ok rest => .ok (es ++ rest)
+
+/-- the quick-fix edits `generate_code_actions` answers a request with, for the lints `lints` of the document -/
+def codeActionEdits (len16 : Char → Nat) (src : List Char) (request : Range) (lints : List (Span × List Sugg)) :
+    Except Panic (List TextEdit) :=
+  match rangeToSpan len16 src request with
+  | .error e => .error e
+  | .ok sp => flatEdits len16 src (lints.filter fun l => l.1.overlapsWith (sp.withLen 1))
+
+/-- if every suggestion's `editOf` succeeds (with value `f s`), `lintEdits` is the list of those edits in order -/
+theorem lintEdits_ok (len16 : Char → Nat) (src : List Char) (sp : Span) (f : Sugg → TextEdit) (suggs : List Sugg)
+    (h : ∀ s ∈ suggs, editOf len16 src s sp = .ok (f s)) :
+    lintEdits len16 src sp suggs = .ok (suggs.map f) := by
+  induction suggs with
+  | nil => rfl
+  | cons s ss ih =>
+    have he := h s (by simp)
+    have hes := ih (fun s' hs' => h s' (by simp [hs']))
+    simp [lintEdits, he, hes]
+
+/-- if every suggestion of every lint gets its edit (`f span s`), `flatEdits` is their concatenation in lint order -/
+theorem flatEdits_ok (len16 : Char → Nat) (src : List Char) (f : Span → Sugg → TextEdit) (ls : List (Span × List Sugg))
+    (h : ∀ l ∈ ls, ∀ s ∈ l.2, editOf len16 src s l.1 = .ok (f l.1 s)) :
+    flatEdits len16 src ls = .ok (ls.flatMap fun l => l.2.map (f l.1)) := by
+  induction ls with
+  | nil => rfl
+  | cons l ls ih =>
+    have hes := lintEdits_ok len16 src l.1 (f l.1) l.2 (h l (by simp))
+    have hrest := ih (fun l' hl' => h l' (by simp [hl']))
+    simp [flatEdits, hes, hrest]
+
+/-- the edit of a suggestion when `editOf` succeeds (a total reading of `editOf`, used only to NAME the edits in
+statements; where `editOf` panics the value is irrelevant) -/
+def editOr (len16 : Char → Nat) (src : List Char) (sp : Span) (s : Sugg) : TextEdit :=
+  match editOf len16 src s sp with
+  | .ok e => e
+  | .error _ => default
+
+theorem editOr_of_ok {len16 : Char → Nat} {src : List Char} {sp : Span} {s : Sugg} {e : TextEdit}
+    (h : editOf len16 src s sp = .ok e) : editOr len16 src sp s = e := by
+  simp [editOr, h]
+
 end Harper.PosConv
